@@ -29,6 +29,8 @@ ASSUMPTIONS = ["HashMap::insert returns None iff the key was absent"]
 SUM = "writer::summarize::Summarize"
 
 # (counter, op, leaf adt, variants, retry polarity) -> allowed extra guard atoms (regexes)
+# conditions on the per-scenario marker map (whatever API reads it: get / insert / remove / entry + Occupied / Vacant) and on the marker's value
+MARK = [r"HashMap::\w+\(", r"hash_map::", r"summarize::Indicator"]
 TABLE = {
     ("parsing_errors", "+1", "Result", "Err", None): [],
     ("features", "+1", "Feature", "Started", None): [],
@@ -39,11 +41,11 @@ TABLE = {
     ("steps.failed", "+1", "Step", "Failed", "final"): [],
     ("scenarios.failed", "+1", "Step", "Failed", "final"): [],
     ("steps.retried", "+1", "Step", "Failed", "retry"): [],
-    ("scenarios.retried", "+1", "Step", "Failed", "retry"): [r"discr\(HashMap::insert\(\.\.\):std::option::Option\)"],
+    ("scenarios.retried", "+1", "Step", "Failed", "retry"): MARK,
     ("failed_hooks", "+1", "Hook", "Failed", None): [],
-    ("scenarios.failed", "+1", "Hook", "Failed", None): [r"discr\(HashMap::get\(\.\.\):std::option::Option\)", r"discr\(writer::summarize::Indicator\)"],
-    ("scenarios.skipped", "-1", "Hook", "Failed", None): [r"discr\(HashMap::get\(\.\.\):std::option::Option\)", r"discr\(writer::summarize::Indicator\)"],
-    ("scenarios.passed", "+1", "Scenario", "Finished", None): [r"discr\(HashMap::(get|remove)\(\.\.\):std::option::Option\)", r"discr\(writer::summarize::Indicator\)"],
+    ("scenarios.failed", "+1", "Hook", "Failed", None): MARK,
+    ("scenarios.skipped", "-1", "Hook", "Failed", None): MARK,
+    ("scenarios.passed", "+1", "Scenario", "Finished", None): MARK,
 }
 COUNTERS = {"parsing_errors", "features", "rules", "failed_hooks", "steps.passed", "steps.skipped", "steps.failed",
             "steps.retried", "scenarios.passed", "scenarios.skipped", "scenarios.failed", "scenarios.retried"}
@@ -187,6 +189,11 @@ def r5(F, R):
                         ok = last_t is not None
                         if not ok:
                             why = "the tested element is not `scenario.steps.last()`"
+                    elif re.fullmatch(r"std::option::Option<&*gherkin::Step>", selfty):
+                        # `scenario.steps.last() == Some(step)`: whole-Step equality under the Option
+                        ok = any(D.mentions(x, lambda y: y[0] == "call" and re.search(r"::last$", y[1])) for x in a[2])
+                        if not ok:
+                            why = "the tested element is not `scenario.steps.last()`"
                     else:
                         why = f"the last-step test compares `{selfty}` values, which different steps of a scenario may share"
                 if a[0] == "bin" and a[1] == "Eq" and o is True:
@@ -259,6 +266,18 @@ def r7(F, R):
                 present = bool(truth[0])
             elif op == "entry":
                 present = True
+        # an existing marker is not overwritten by a different one: an `insert` used as a look-up (`match map.insert(k, Failed) { Some(Retried) => ..`)
+        # has already replaced the marker the row then learns about
+        for i, op, e in ops:
+            if op != "insert" or len(e[2]) < 3:
+                continue
+            term = ("call", e[1], e[2], e[4])
+            newv = e[2][2][2] if D.is_variant(e[2][2], "writer::summarize::Indicator") else None
+            prev = [o for a, o in p.conds if a[0] == "discr" and a[1] == ("field", ("as", term, "Some"), 0)]
+            if newv is not None and prev and not set(str(prev[0]).split("|")) <= {newv}:
+                ctx = "/".join(f"{k.rsplit('::', 1)[-1]}={'|'.join(sorted(v))}" for k, v in sorted(r.ctx.items()) if k in ("event::Scenario", "event::Step", "event::Hook"))
+                R.violation(f"marker-not-overwritten/{ctx}", T.site_of(e[3]), f"the scenario's marker `{prev[0]}` is overwritten with `{newv}` ({ctx}): a scenario marked as retried loses that "
+                            "mark, is counted as retried again by its next failing attempt (or as passed / failed twice)")
         removed_none = any(op == "remove" and [o for a, o in p.conds if a[0] == "discr" and a[1] == ("call", e[1], e[2], e[4])] == ["None"] for i, op, e in ops)
         absent_learned = any(op in ("get", "get_mut") and [o for a, o in p.conds if a[0] == "discr" and a[1] == ("call", e[1], e[2], e[4])] == ["None"] for i, op, e in ops)
         for w in cls:
